@@ -612,6 +612,14 @@ func init() {
 		_, has := sv.G[a[1].(string)]
 		return BoolC(has)
 	}
+	V["Pin"] = func(c *Ctx, st *State, a []Value, site ssa.Instruction) Value {
+		// a solver variable pinned to a (usually constant) value by two inequalities: the relation asserted
+		// about it is then decided by the solver, not by the engine's constant folder
+		v := termOf(a[0])
+		g := Var(c.freshName("pin"), IntSort)
+		st.pc = st.pc.and(And(ILe(g, v), ILe(v, g)))
+		return g
+	}
 	V["IsConcrete"] = func(c *Ctx, st *State, a []Value, site ssa.Instruction) Value {
 		t, ok := a[0].(IfaceV).V.(*Term)
 		return BoolC(ok && t.IsConst())
